@@ -1080,6 +1080,69 @@ def _dec_action_nx(data, off, end):
   return _dec_action(data, off, end)
 
 
+# Numeric values of the enums and macros of openflow.h 1.0.0 that appear on the wire.
+SPEC_CONSTANTS = {
+  "OFP_VERSION": 0x01, "OFP_MAX_TABLE_NAME_LEN": 32, "OFP_MAX_PORT_NAME_LEN": 16, "DESC_STR_LEN": 256, "SERIAL_NUM_LEN": 32,
+  "OFP_DEFAULT_MISS_SEND_LEN": 128, "OFP_DEFAULT_PRIORITY": 0x8000, "OFP_VLAN_NONE": 0xffff, "OFPQ_ALL": 0xffffffff,
+  "OFP_DL_TYPE_ETH2_CUTOFF": 0x0600, "OFP_DL_TYPE_NOT_ETH_TYPE": 0x05ff, "OFP_FLOW_PERMANENT": 0, "OFPQ_MIN_RATE_UNCFG": 0xffff,
+  # enum ofp_type
+  "OFPT_HELLO": 0, "OFPT_ERROR": 1, "OFPT_ECHO_REQUEST": 2, "OFPT_ECHO_REPLY": 3, "OFPT_VENDOR": 4, "OFPT_FEATURES_REQUEST": 5,
+  "OFPT_FEATURES_REPLY": 6, "OFPT_GET_CONFIG_REQUEST": 7, "OFPT_GET_CONFIG_REPLY": 8, "OFPT_SET_CONFIG": 9, "OFPT_PACKET_IN": 10,
+  "OFPT_FLOW_REMOVED": 11, "OFPT_PORT_STATUS": 12, "OFPT_PACKET_OUT": 13, "OFPT_FLOW_MOD": 14, "OFPT_PORT_MOD": 15,
+  "OFPT_STATS_REQUEST": 16, "OFPT_STATS_REPLY": 17, "OFPT_BARRIER_REQUEST": 18, "OFPT_BARRIER_REPLY": 19,
+  "OFPT_QUEUE_GET_CONFIG_REQUEST": 20, "OFPT_QUEUE_GET_CONFIG_REPLY": 21,
+  # enum ofp_port
+  "OFPP_MAX": 0xff00, "OFPP_IN_PORT": 0xfff8, "OFPP_TABLE": 0xfff9, "OFPP_NORMAL": 0xfffa, "OFPP_FLOOD": 0xfffb,
+  "OFPP_ALL": 0xfffc, "OFPP_CONTROLLER": 0xfffd, "OFPP_LOCAL": 0xfffe, "OFPP_NONE": 0xffff,
+  # enum ofp_action_type
+  "OFPAT_OUTPUT": 0, "OFPAT_SET_VLAN_VID": 1, "OFPAT_SET_VLAN_PCP": 2, "OFPAT_STRIP_VLAN": 3, "OFPAT_SET_DL_SRC": 4,
+  "OFPAT_SET_DL_DST": 5, "OFPAT_SET_NW_SRC": 6, "OFPAT_SET_NW_DST": 7, "OFPAT_SET_NW_TOS": 8, "OFPAT_SET_TP_SRC": 9,
+  "OFPAT_SET_TP_DST": 10, "OFPAT_ENQUEUE": 11, "OFPAT_VENDOR": 0xffff,
+  # enum ofp_stats_types, ofp_stats_reply_flags
+  "OFPST_DESC": 0, "OFPST_FLOW": 1, "OFPST_AGGREGATE": 2, "OFPST_TABLE": 3, "OFPST_PORT": 4, "OFPST_QUEUE": 5,
+  "OFPST_VENDOR": 0xffff, "OFPSF_REPLY_MORE": 1,
+  # enum ofp_queue_properties
+  "OFPQT_NONE": 0, "OFPQT_MIN_RATE": 1,
+  # enum ofp_flow_wildcards
+  "OFPFW_IN_PORT": 1 << 0, "OFPFW_DL_VLAN": 1 << 1, "OFPFW_DL_SRC": 1 << 2, "OFPFW_DL_DST": 1 << 3, "OFPFW_DL_TYPE": 1 << 4,
+  "OFPFW_NW_PROTO": 1 << 5, "OFPFW_TP_SRC": 1 << 6, "OFPFW_TP_DST": 1 << 7, "OFPFW_NW_SRC_SHIFT": 8, "OFPFW_NW_SRC_BITS": 6,
+  "OFPFW_NW_SRC_MASK": 63 << 8, "OFPFW_NW_SRC_ALL": 32 << 8, "OFPFW_NW_DST_SHIFT": 14, "OFPFW_NW_DST_BITS": 6,
+  "OFPFW_NW_DST_MASK": 63 << 14, "OFPFW_NW_DST_ALL": 32 << 14, "OFPFW_DL_VLAN_PCP": 1 << 20, "OFPFW_NW_TOS": 1 << 21,
+  "OFPFW_ALL": (1 << 22) - 1,
+  # enum ofp_flow_mod_command / flags
+  "OFPFC_ADD": 0, "OFPFC_MODIFY": 1, "OFPFC_MODIFY_STRICT": 2, "OFPFC_DELETE": 3, "OFPFC_DELETE_STRICT": 4,
+  "OFPFF_SEND_FLOW_REM": 1, "OFPFF_CHECK_OVERLAP": 2, "OFPFF_EMERG": 4,
+  # reasons
+  "OFPR_NO_MATCH": 0, "OFPR_ACTION": 1, "OFPRR_IDLE_TIMEOUT": 0, "OFPRR_HARD_TIMEOUT": 1, "OFPRR_DELETE": 2,
+  "OFPPR_ADD": 0, "OFPPR_DELETE": 1, "OFPPR_MODIFY": 2,
+  # enum ofp_config_flags
+  "OFPC_FRAG_NORMAL": 0, "OFPC_FRAG_DROP": 1, "OFPC_FRAG_REASM": 2, "OFPC_FRAG_MASK": 3,
+  # enum ofp_capabilities
+  "OFPC_FLOW_STATS": 1 << 0, "OFPC_TABLE_STATS": 1 << 1, "OFPC_PORT_STATS": 1 << 2, "OFPC_STP": 1 << 3, "OFPC_RESERVED": 1 << 4,
+  "OFPC_IP_REASM": 1 << 5, "OFPC_QUEUE_STATS": 1 << 6, "OFPC_ARP_MATCH_IP": 1 << 7,
+  # enum ofp_port_config / state / features
+  "OFPPC_PORT_DOWN": 1 << 0, "OFPPC_NO_STP": 1 << 1, "OFPPC_NO_RECV": 1 << 2, "OFPPC_NO_RECV_STP": 1 << 3, "OFPPC_NO_FLOOD": 1 << 4,
+  "OFPPC_NO_FWD": 1 << 5, "OFPPC_NO_PACKET_IN": 1 << 6,
+  "OFPPS_LINK_DOWN": 1 << 0, "OFPPS_STP_LISTEN": 0 << 8, "OFPPS_STP_LEARN": 1 << 8, "OFPPS_STP_FORWARD": 2 << 8,
+  "OFPPS_STP_BLOCK": 3 << 8, "OFPPS_STP_MASK": 3 << 8,
+  "OFPPF_10MB_HD": 1 << 0, "OFPPF_10MB_FD": 1 << 1, "OFPPF_100MB_HD": 1 << 2, "OFPPF_100MB_FD": 1 << 3, "OFPPF_1GB_HD": 1 << 4,
+  "OFPPF_1GB_FD": 1 << 5, "OFPPF_10GB_FD": 1 << 6, "OFPPF_COPPER": 1 << 7, "OFPPF_FIBER": 1 << 8, "OFPPF_AUTONEG": 1 << 9,
+  "OFPPF_PAUSE": 1 << 10, "OFPPF_PAUSE_ASYM": 1 << 11,
+  # enum ofp_error_type and codes
+  "OFPET_HELLO_FAILED": 0, "OFPET_BAD_REQUEST": 1, "OFPET_BAD_ACTION": 2, "OFPET_FLOW_MOD_FAILED": 3, "OFPET_PORT_MOD_FAILED": 4,
+  "OFPET_QUEUE_OP_FAILED": 5,
+  "OFPHFC_INCOMPATIBLE": 0, "OFPHFC_EPERM": 1,
+  "OFPBRC_BAD_VERSION": 0, "OFPBRC_BAD_TYPE": 1, "OFPBRC_BAD_STAT": 2, "OFPBRC_BAD_VENDOR": 3, "OFPBRC_BAD_SUBTYPE": 4,
+  "OFPBRC_EPERM": 5, "OFPBRC_BAD_LEN": 6, "OFPBRC_BUFFER_EMPTY": 7, "OFPBRC_BUFFER_UNKNOWN": 8,
+  "OFPBAC_BAD_TYPE": 0, "OFPBAC_BAD_LEN": 1, "OFPBAC_BAD_VENDOR": 2, "OFPBAC_BAD_VENDOR_TYPE": 3, "OFPBAC_BAD_OUT_PORT": 4,
+  "OFPBAC_BAD_ARGUMENT": 5, "OFPBAC_EPERM": 6, "OFPBAC_TOO_MANY": 7, "OFPBAC_BAD_QUEUE": 8,
+  "OFPFMFC_ALL_TABLES_FULL": 0, "OFPFMFC_OVERLAP": 1, "OFPFMFC_EPERM": 2, "OFPFMFC_BAD_EMERG_TIMEOUT": 3,
+  "OFPFMFC_BAD_COMMAND": 4, "OFPFMFC_UNSUPPORTED": 5,
+  "OFPPMFC_BAD_PORT": 0, "OFPPMFC_BAD_HW_ADDR": 1,
+  "OFPQOFC_BAD_PORT": 0, "OFPQOFC_BAD_QUEUE": 1, "OFPQOFC_EPERM": 2,
+}
+
+
 def selftest():
   """encode/decode consistency on one fragment of every fixed kind (used by the harness at start-up)."""
   m = {"in_port": 3, "dl_type": 0x800, "nw_proto": 6, "nw_src": [0x0a000001, 24], "tp_dst": 80}
